@@ -43,9 +43,18 @@ CHECKS = [
      "property-based testing: rapid-driven cluster simulation, proposal ledger as oracle over every log", "DESIGN.md 5/C20"),
 ]
 
+PURE_NOTE = ("Trusted base: the reference models in harness/refmodel (a few lines each, written from the property text). The exhaustive part covers the stated "
+             "small domain completely; beyond it inputs are sampled.")
+CHECKS += [
+ dict(property_id="C12", engine="PURE", technique="property-based testing against a reference model: exhaustive enumeration of a small domain plus rapid-generated large/hostile inputs, with metamorphic relations",
+      level_claimed=dict(category="exploration", text="quorum.MajorityConfig/JointConfig are compared with a reference definition (largest index acked by a strict majority; Won/Lost/Pending) on every voter set over ids {1..6} x every ack/vote vector (joint: every pair of sets over {1..4}), and on rapid-generated sets up to 15 members with hostile ids/indexes; plus monotonicity and order-independence relations.", design_ref="DESIGN.md 5/C12"),
+      level_note=PURE_NOTE),
+ dict(property_id="C13", engine="PURE", technique="model-based property testing: rapid stateful programs of conf changes against an independent set-based reference model, plus bounded exhaustive closure (BFS) of the reachable configuration space",
+      level_claimed=dict(category="exploration", text="confchange.Changer (dispatched like raft.applyConfChange) is compared with an independent reference model on accept/reject and result, with the listed invariants, input purity and the ConfState/Restore round trip through the wire, on generated programs over ids {0..6} and on the complete reachable space over ids {1..3} (quick) / {1..4} (thorough) with all changes of <=2 singles.", design_ref="DESIGN.md 5/C13"),
+      level_note=PURE_NOTE),
+]
+
 NOT_YET = {
- "C12": "check under construction in this session (PURE engine); will be claimed when committed",
- "C13": "check under construction in this session (PURE engine); will be claimed when committed",
  "C15": "check under construction in this session (SIM liveness suffix); will be claimed when committed",
  "C18": "check under construction in this session (LOG engine); will be claimed when committed",
  "C19": "check under construction in this session (REPLAY engine); will be claimed when committed",
@@ -73,6 +82,8 @@ def main():
         engines=[
             dict(name="SIM", path="harness/sim", serves_properties=sorted(p for p in claimed if p not in ("C12","C13","C18","C19")),
                  kind_free_text="deterministic cluster simulator over RawNode; every choice is a rapid draw; monitors are invariants over the history"),
+            dict(name="PURE", path="harness/pure", serves_properties=["C12", "C13"],
+                 kind_free_text="function-level property tests against reference models (harness/refmodel); exhaustive small domains + rapid-generated inputs"),
         ],
         checks=checks,
         not_applicable=[dict(property_id=k, reason=v) for k, v in sorted(NOT_YET.items()) if k not in claimed],
